@@ -9,6 +9,7 @@ CONSTANTS
   NOCOPY = {}
   OBJ = "grain"
   ALIASARG = FALSE
+  SAMEKEEP = FALSE
   UNWRITTEN <- UNW_b_lower
   EmitMode = 0
 INVARIANT CallDefined
